@@ -356,25 +356,62 @@ def ectxOf (st : State) (ctx : Nf.Ctx) : ECtx :=
   { rawTy := ctx.rawTy, argTy := argTy, argUint := argUint, argRawTy := rawTy, argRawUint := rawUint,
     typeId := fun n => (st.find n).map (·.1) }
 
-/-- `nfcmp DECL ITEM <S-expression of the emitted body>` -/
-def nfcmp (st : State) (decl item sx : String) : State × String :=
+/-! ### Lean source of an expression / a context (for the kernel re-check of validated bodies) -/
+
+def leanITy (t : ITy) : String := "." ++ showITy t
+
+def leanVar : Var → String
+  | .raw => ".raw" | .fieldValue => ".fieldValue" | .index => ".index" | .temp => ".temp" | .effIndex => ".effIndex"
+  | .extracted => ".extracted" | .constMask => ".constMask" | .value => ".value"
+
+def leanOp : BinOp → String
+  | .shl => ".shl" | .shr => ".shr" | .and => ".and" | .or => ".or" | .add => ".add" | .sub => ".sub" | .mul => ".mul"
+  | .ne => ".ne" | .lt => ".lt"
+
+partial def leanExpr : Expr → String
+  | .lit t n => s!"(.lit {leanITy t} {n})"
+  | .var v => s!"(.var {leanVar v})"
+  | .bin op a b => s!"(.bin {leanOp op} {leanExpr a} {leanExpr b})"
+  | .not a => s!"(.not {leanExpr a})"
+  | .cast a t => s!"(.cast {leanExpr a} {leanITy t})"
+  | .ite c a b => s!"(.ite {leanExpr c} {leanExpr a} {leanExpr b})"
+  | .letE v e b => s!"(.letE {leanVar v} {leanExpr e} {leanExpr b})"
+  | .assertE c b => s!"(.assertE {leanExpr c} {leanExpr b})"
+  | .extract W n e s => s!"(.extract {leanITy W} {n} {leanExpr e} {leanExpr s})"
+  | .uintNew n e => s!"(.uintNew {n} {leanExpr e})"
+  | .uintValue e => s!"(.uintValue {leanExpr e})"
+  | .customNew ty e => s!"(.customNew {ty} {leanExpr e})"
+  | .customRaw e => s!"(.customRaw {leanExpr e})"
+
+def leanArgTy : Nf.ArgTy → String
+  | .none => ".none" | .bool => ".bool" | .int t => s!"(.int {leanITy t})" | .uint n => s!"(.uint {n})"
+  | .custom (.int t) => s!"(.custom (.int {leanITy t}))" | .custom (.uint n) => s!"(.custom (.uint {n}))"
+
+def leanCtx (c : Nf.Ctx) : String :=
+  "{ rawTy := " ++ leanITy c.rawTy ++ ", arg := " ++ leanArgTy c.arg ++ ", argVar := " ++ leanVar c.argVar ++ " }"
+
+/-- `nfcmp DECL ITEM <S-expression of the emitted body>`; with `terms`, an `equal` answer is followed by the Lean source of the
+    claim (`nfterm …`), which the run has the kernel re-check -/
+def nfcmp (st : State) (decl item sx : String) (terms : Bool := false) : State × List String :=
   match st.find decl with
   | some (_, .bitfield _ p) =>
     match itemOf p item with
-    | none => (st, s!"nfres {decl} {item} noitem")
+    | none => (st, [s!"nfres {decl} {item} noitem"])
     | some (m, ctx, _) =>
       match (parseSx sx).bind (elabSx (ectxOf st ctx) none) with
-      | none => (st, s!"nfres {decl} {item} untranslatable")
+      | none => (st, [s!"nfres {decl} {item} untranslatable"])
       | some a =>
         let st' := { st with actual := st.actual.insert (decl ++ " " ++ item) a }
-        if Nf.bodiesEquiv ctx a m then (st', s!"nfres {decl} {item} equal")
+        if Nf.bodiesEquiv ctx a m then
+          (st', [s!"nfres {decl} {item} equal"] ++
+            (if terms then [s!"nfterm {decl} {item} bodiesEquiv ({leanCtx ctx} : Ctx) {leanExpr a} {leanExpr m} = true"] else []))
         else
           -- no common normal form: say which side has none
           let probe := fun (e : Expr) => match e with
             | .assertE _ b => (Nf.nf { ctx with index := some 0 } ({ ctx with index := some 0 } : Nf.Ctx).init b).isSome
             | e => (Nf.nf ctx ctx.init e).isSome
-          (st', s!"nfres {decl} {item} {if probe a && probe m then "differ" else "unknown"}")
-  | _ => (st, s!"nfres {decl} {item} nodecl")
+          (st', [s!"nfres {decl} {item} {if probe a && probe m then "differ" else "unknown"}"])
+  | _ => (st, [s!"nfres {decl} {item} nodecl"])
 
 /-- the emitted body registered for an item, evaluated like the model's -/
 def aGet (st : State) (chk : Bool) (p : Program) (fd : FieldDef) (idx : String) (raw : Nat) : Option R :=
@@ -484,7 +521,11 @@ def step (st : State) (chk : Bool) (line : String) : State × Bool × List Strin
   | "nfcmp" :: decl :: item :: _ =>
     let sx := " ".intercalate ((line.splitOn " ").drop 3)
     let (st', out) := nfcmp st decl item sx
-    (st', chk, [out])
+    (st', chk, out)
+  | "nfcmpx" :: decl :: item :: _ =>
+    let sx := " ".intercalate ((line.splitOn " ").drop 3)
+    let (st', out) := nfcmp st decl item sx true
+    (st', chk, out)
   | "op" :: name :: rest =>
     -- split at " = "
     match line.splitOn " = " with
